@@ -8,3 +8,15 @@ package rest
 //@   property C04
 //@   ensures result == ite(timeout > 0, timeout, time.Duration(ng.conf.Timeout) * time.Millisecond)
 //@   modifies nothing
+
+// the server-wide timeout (which bounds the connection's read/write deadlines) is the maximum over all registered routes:
+// no later, shorter route group may cut off a longer one
+//@ func (ng *engine) addRoutes
+//@   property C04
+//@   ensures ng.timeout == max(old(ng.timeout), r.timeout)
+//@ func buildSSERoutes
+//@   property C04
+//@   loop 0: invariant true
+//@   loop 0: modifies elems(routes)
+//@   modifies elems(routes)
+//@   allocates
